@@ -13,15 +13,18 @@ Open Scope Z_scope.
 
 Inductive case :=
 | CChecksum (buf : list Z) (init r : Z)
+(* the same on the buffer of [len] bytes all equal to [x] *)
+| CChecksumRep (len x init r : Z)
+(* the same on [len] pseudo-random bytes: x' = (1103515245 x + 12345) mod 2^31, byte = x' / 2^16 mod 256 *)
+| CChecksumLcg (len seed init r : Z)
 | CCombine (a b r : Z)
 | CChunks (chunks : list (list Z)) (init r : Z)
 | CPseudo (proto : Z) (src dst : list Z) (r : Z)
 (* zero the 16-bit field at [off], c = Checksum, store ^c, r2 = Checksum again *)
 | CVerify (pkt : list Z) (off init c r2 : Z)
-(* ParseSynOptions: r = [mss; ws; ts; tsval; tsecr; sackPermitted], [] when it panicked *)
-| CSyn (opts : list Z) (isAck panicked : bool) (r : list Z)
-(* ParseTCPOptions: r = [ts; tsval; tsecr; nblocks; start1; end1; ...] *)
-| COpt (opts : list Z) (panicked : bool) (r : list Z)
+(* ParseSynOptions(opts, isAck): synr = [mss; ws; ts; tsval; tsecr; sackPermitted], [] when it panicked;
+   ParseTCPOptions(opts): optr = [ts; tsval; tsecr; nblocks; start1; end1; ...] *)
+| CParse (opts : list Z) (isAck psyn : bool) (synr : list Z) (popt : bool) (optr : list Z)
 (* a sequence of encoder calls offset += EncodeX(.., buf[offset:]), then both parsers on buf[:offset] *)
 | CItems (items : list (list Z)) (buf out : list Z) (off : Z) (isAck : bool) (synr optr : list Z)
 (* makeSynOptions / makeOptions replayed with the real encoders on a 40-byte pool buffer *)
@@ -60,6 +63,12 @@ Definition ob (o : option bool) : list Z := match o with Some v => [b2z v] | Non
 Definition u16b (x : Z) : bool := (0 <=? x) && (x <? 65536).
 Definition u32b (x : Z) : bool := (0 <=? x) && (x <? 2^32).
 Definition arg (l : list Z) (i : nat) : Z := nth i l 0.
+
+Fixpoint lcg_bytes (n : nat) (x : Z) : list Z :=
+  match n with
+  | O => []
+  | S n' => let x' := (x * 1103515245 + 12345) mod 2^31 in (x' / 2^16) mod 256 :: lcg_bytes n' x'
+  end.
 
 (* ---------- TCP options ---------- *)
 Definition syn_list (s : synOpts) : list Z :=
@@ -342,6 +351,8 @@ Definition emit_model (items : list (list Z)) (buf : list Z) : list Z * nat :=
 Definition corr (c : case) : Z :=
   match c with
   | CChecksum buf init r => zneq (checksum buf init) r
+  | CChecksumRep len x init r => zneq (checksum (repeat x (Z.to_nat len)) init) r
+  | CChecksumLcg len seed init r => zneq (checksum (lcg_bytes (Z.to_nat len) seed) init) r
   | CCombine a b r => zneq (checksumCombine a b) r
   | CChunks chunks init r => zneq (checksum_chunks chunks init) r
   | CPseudo proto src dst r => zneq (pseudoHeaderChecksum proto src dst) r
@@ -355,10 +366,10 @@ Definition corr (c : case) : Z :=
         | Some p1 => ok ((c' =? c) && (checksum p1 init =? r2))
         end
       end
-  | CSyn opts isAck panicked r =>
-      let '(p, l) := syn_res (parseSynOptions opts isAck) in ok (Bool.eqb p panicked && leqb l r)
-  | COpt opts panicked r =>
-      let '(p, l) := opt_res (parseTCPOptions opts) in ok (Bool.eqb p panicked && leqb l r)
+  | CParse opts isAck psyn synr popt optr =>
+      let '(p1, l1) := syn_res (parseSynOptions opts isAck) in
+      let '(p2, l2) := opt_res (parseTCPOptions opts) in
+      ok (Bool.eqb p1 psyn && leqb l1 synr && Bool.eqb p2 popt && leqb l2 optr)
   | CItems items buf out off isAck synr optr =>
       let '(o, n) := emit_model items buf in
       let bytes := firstn n o in
@@ -398,6 +409,12 @@ Definition all_even_but_last (chunks : list (list Z)) : bool :=
 Definition spec (c : case) : Z :=
   match c with
   | CChecksum buf init r => zneq (rfc1071_sum buf init) r
+  | CChecksumRep len x init r =>
+      (* len bytes x: len/2 words x*257 and, for odd len, a last word x*256; the one's-complement
+         sum is the representative of the integer total modulo 65535 (0 only for total 0) *)
+      let total := init + (len / 2) * (x * 257) + (len mod 2) * (x * 256) in
+      if 131072 <? len then 0 else zneq (oc_norm total) r
+  | CChecksumLcg len seed init r => zneq (rfc1071_sum (lcg_bytes (Z.to_nat len) seed) init) r
   | CCombine a b r => zneq (ocadd a b) r
   | CChunks chunks init r =>
       if all_even_but_last chunks then zneq (rfc1071_sum (concat chunks) init) r else 0
@@ -405,10 +422,9 @@ Definition spec (c : case) : Z :=
       if Nat.even (length src) && Nat.even (length dst)
       then zneq (rfc1071_sum (src ++ dst ++ [0; proto]) 0) r else 0
   | CVerify pkt off init c r2 => zneq r2 65535
-  | CSyn opts isAck panicked r =>
-      ok (negb panicked && leqb r (syn_list (ref_syn (S (length opts)) opts isAck syn_default)))
-  | COpt opts panicked r =>
-      ok (negb panicked && leqb r (opt_list (ref_opt (S (length opts)) opts opts_default)))
+  | CParse opts isAck psyn synr popt optr =>
+      ok (negb psyn && leqb synr (syn_list (ref_syn (S (length opts)) opts isAck syn_default)) &&
+          negb popt && leqb optr (opt_list (ref_opt (S (length opts)) opts opts_default)))
   | CItems items buf out off isAck synr optr =>
       let its := map item_of items in
       if forallb wf_itemb its && (length (wire its) <=? length buf)%nat then
@@ -452,12 +468,15 @@ Definition spec (c : case) : Z :=
 Definition tag (c : case) : Z :=
   match c with
   | CChecksum buf _ _ => match buf with [] => 0 | _ => if Nat.odd (length buf) then 2 else 1 end
+  | CChecksumRep len x _ _ => if len =? 0 then 0 else if Z.odd len then 2 else 1
+  | CChecksumLcg len _ _ _ => if len =? 0 then 0 else if Z.odd len then 2 else 1
   | CCombine a b _ => if (a =? 0) || (b =? 0) then 0 else if 65536 <=? a + b then 4 else 3
   | CChunks chunks _ _ => match chunks with [] => 0 | _ => if all_even_but_last chunks then 5 else 6 end
   | CPseudo _ src _ _ => match src with [] => 0 | _ => 7 end
   | CVerify _ _ _ _ _ => 8
-  | CSyn opts _ _ r => match opts with [] => 0 | _ => if leqb r (syn_list syn_default) then 9 else 10 end
-  | COpt opts _ r => match opts with [] => 0 | _ => if leqb r (opt_list opts_default) then 11 else 12 end
+  | CParse opts _ _ synr _ optr =>
+      match opts with [] => 0 | _ =>
+        9 + (if leqb synr (syn_list syn_default) then 0 else 1) + (if leqb optr (opt_list opts_default) then 0 else 2) end
   | CItems items buf _ _ _ _ _ =>
       match items with [] => 0 | _ =>
         if forallb wf_itemb (map item_of items) && (length (wire (map item_of items)) <=? length buf)%nat
